@@ -461,6 +461,12 @@ func runText(s TextScript, v *vt.V) {
 		v.Failf("union-noop-text", "ParseScope(%q).Union(subset %v).String() = %q", s.TextA, want[:len(want)/2], u.String())
 		return
 	}
+	// ... also when the argument holds exactly the same set under another spelling
+	same := ociauth.NewScope(cp(want)...)
+	if u := pa.Union(same); len(want) > 0 && (u.String() != pa.String() || !u.Equal(pa)) {
+		v.Failf("union-noop-text", "ParseScope(%q).Union(the same set, built from a list and printing as %q).String() = %q: the receiver's text is not kept", s.TextA, same.String(), u.String())
+		return
+	}
 	if u := pa.Union(ociauth.ParseScope(s.TextA)); u.String() != s.TextA {
 		v.Failf("union-noop-text", "ParseScope(%q).Union(itself).String() = %q", s.TextA, u.String())
 		return
@@ -481,7 +487,7 @@ func genText(t *rapid.T) TextScript {
 	for i := 0; i < n; i++ {
 		switch rapid.IntRange(0, 6).Draw(t, "fieldKind") {
 		case 0:
-			fields = append(fields, rapid.SampledFrom([]string{"opaque", "a:b", "a:b:c:d", "::", "repository::pull", "registry:catalog:*", ":x:", "repository:foo:"}).Draw(t, "odd"))
+			fields = append(fields, rapid.SampledFrom([]string{"opaque", "*", "a:b", "a:b:c:d", "::", "repository::pull", "registry:catalog:*", ":x:", "repository:foo:"}).Draw(t, "odd"))
 		default:
 			typ := rapid.SampledFrom([]string{"repository", "repository", "repository", "registry", "other"}).Draw(t, "ftype")
 			res := rapid.SampledFrom([]string{"foo", "bar", "foo/bar", "catalog"}).Draw(t, "fres")
